@@ -26,7 +26,7 @@ namespace internal {
 template <typename T>
 constexpr auto trunc_int(T const x) noexcept -> T
 {
-    return (T(static_cast<llint_t>(x)));
+    return (x < T(0) ? -T(static_cast<llint_t>(-x)) : T(static_cast<llint_t>(x)));
 }
 
 template <typename T>
